@@ -144,7 +144,10 @@ func QuiesceOpt(maxWait time.Duration, stable int, allowSleep bool) bool {
 		if time.Now().After(deadline) {
 			return false
 		}
-		time.Sleep(100 * time.Microsecond)
+		// short spin instead of time.Sleep: timer wake-ups in an otherwise idle process cost ~1 ms
+		for t0 := time.Now(); time.Since(t0) < 30*time.Microsecond; {
+			runtime.Gosched()
+		}
 	}
 }
 
